@@ -21,6 +21,13 @@ CHECKS = {
                     "kinds are routed by type, and that qualifier markers reach the right flag and C++ spelling. "
                     "Does not decide which alternative the longest-match Or picks for ambiguous inputs.",
             "note": TB},
+    "C02": {"engine": "F", "design_ref": "DESIGN.md section 3 C02",
+            "technique": "static analysis: interprocedural provenance ('instantiated-ness') of every type-carrying constructor parameter, recursion/worklist shape, substring-rewrite lint, qualifier-forwarding binding",
+            "text": "Decides that every type-carrying position of every node rebuilt by the instantiator is sent "
+                    "through the substitution primitives, that the substitution reaches every nesting depth, "
+                    "matches whole identifiers only, forwards qualifiers/names/defaults, and treats `This` by "
+                    "equality. Does not decide value-level equality of the resulting spellings for all inputs.",
+            "note": TB + "; type-carrying fields taken from the parser classes' own annotations"},
     "C07": {"engine": "G+F", "design_ref": "DESIGN.md section 3 C07",
             "technique": "static analysis: end-anchor and capture-completeness of the grammar, call-graph effect analysis (may-reject before first write on all paths), handler audit",
             "text": "Decides: the parse root is end-anchored and is the only parse entry; every accepted token "
@@ -30,6 +37,13 @@ CHECKS = {
                     "validation sites still reject. Does not decide that every corrupted input lies outside the "
                     "language.",
             "note": TB + "; rejections are ParseBaseException/ValueError/AssertionError; asserts active (no -O)"},
+    "C08": {"engine": "F", "design_ref": "DESIGN.md section 3 C08",
+            "technique": "static analysis: shape of every itertools.product site, typedef-path binding, pass-through loop structure, single naming helper",
+            "text": "Decides that instantiations are enumerated as the Cartesian product of the parsed lists in "
+                    "declaration order at all three levels, that typedefs build exactly one instantiation with "
+                    "the typedef's arguments and name, that everything else passes through once in order, and "
+                    "that names/spellings come from one helper that capitalises position 0 only.",
+            "note": TB + "; itertools.product ordering as documented"},
     "C12": {"engine": "G", "design_ref": "DESIGN.md section 3 C12",
             "technique": "static analysis: grammar reconstruction + layout classification of terminals/combinators",
             "text": "Decides the necessary structural conditions for layout/comment independence of parsing: "
@@ -38,6 +52,13 @@ CHECKS = {
                     "anchored parse entry. Covers every grammar node, hence every input; does not re-prove "
                     "byte-identical generator output (follows from equal trees + C14).",
             "note": TB},
+    "C13": {"engine": "F", "design_ref": "DESIGN.md section 3 C13",
+            "technique": "static analysis: freshness/aliasing (mutate-only-fresh with reaching definitions, accumulator parameters, closures), key-only use of template parameter names, no shared module/class state",
+            "text": "Decides the aliasing discipline that makes instantiations independent: every in-place "
+                    "modification in the instantiator hits a freshly created value; lists handed to the re-parenting "
+                    "Class constructor are rebuilt; parameter names are lookup keys only; no cross-run state in "
+                    "parser or instantiator. Does not re-prove output equality under alpha-renaming as a value fact.",
+            "note": TB + "; deepcopy yields an independent graph; instantiate_namespace's in/out parameter exempt by name"},
     "C14": {"engine": "F", "design_ref": "DESIGN.md section 3 C14",
             "technique": "static analysis: effect analysis over the call graph (nondeterminism sources, unordered collections, un-reset accumulators, provenance of write/read paths, whole-file writes)",
             "text": "Decides the effect discipline that makes generation a repeatable function: no "
@@ -65,5 +86,5 @@ CHECKS = {
 }
 PENDING = "checker not implemented yet in this revision (see DESIGN.md section 3 for the planned static rules)"
 NOT_APPLICABLE = {p: PENDING for p in
-                  ["C02", "C03", "C04", "C05", "C06", "C08", "C09", "C10", "C11",
-                   "C13", "C15", "C16", "C17"]}
+                  ["C03", "C04", "C05", "C06", "C09", "C10", "C11",
+                   "C15", "C16", "C17"]}
